@@ -163,6 +163,8 @@ def run(ctx):
         "compared", "byte_equal", "gating_faults", "differ", "cells_op_version_outcome")}
     ctx.coverage["evaluations"] += enc.get("compared") or 0
     session_part(ctx)
+    import e2e_hook
+    e2e_hook.run(ctx, ["c16"])
     if divs and not ctx.violations:
         d = divs[0]
         ctx.report("correspondence:engine-model", "model and engine disagree on the version matrix",
@@ -282,6 +284,9 @@ def search(ctx, broken):
 
 
 def replay(ctx, rep):
+    if (rep.get("replay") or {}).get("kind") == "server-e2e":
+        import e2e_hook
+        return e2e_hook.replay(ctx, rep)
     if (rep.get("replay") or {}).get("kind") == "session-versions":
         return replay_session(ctx, rep)
     if (rep.get("replay") or {}).get("kind") == "encode":
